@@ -162,13 +162,15 @@ CLAIMED = {
             "range(new[start], new[stop] + 1, r_step) has as many elements as factors were kept (needs a div/mod bound the lemma library "
             "does not provide)."),
     "C18": ("symbolic execution of the record loops as statement slices with the file length universally quantified; loop invariants over (position, records accepted)",
-            "Proof for two record loops: _extract_flowed_energy_density and the openQCD branch of _read_flow_obs, with the byte length L of the "
+            "Proof for four record loops: _extract_flowed_energy_density, both branches (openQCD, sfqcd) of _read_flow_obs, and read_rwms "
+            "(1.4/1.6, one factor), with the byte length L of the "
             "file a free symbol (every truncation offset at once): on normal exit every accepted record lies completely before the cut "
             "(pos0 + k*recsize <= L), fewer than 4 unread bytes remain, and a cut inside a record ends exceptionally. The invariant is "
-            "position == pos0 + k*recsize; it failed for _extract_flowed_energy_density (unchecked last block), which was fixed.",
+            "position == pos0 + k*recsize; it failed for _extract_flowed_energy_density (unchecked last block) and for the sfqcd loop (blocks after "
+            "`obspos` unchecked; ncs / iobs / obspos enumerated, tmax symbolic); both were fixed.",
             "DESIGN.md section 6 C18",
             "Assumed file model: read(n) returns min(n, remaining) bytes, struct.unpack raises unless the buffer has exactly calcsize bytes. NOT "
-            "decided: read_rwms, sfqcd branch of _read_flow_obs, read_ms5_xsf, read_pbp, sfcf text formats, json.gz / xml.gz / csv.gz archives; "
+            "decided: read_rwms for openQCD 2.0 and several factors, read_ms5_xsf, read_pbp, sfcf text formats, json.gz / xml.gz / csv.gz archives; "
             "that an uncut file is read without an exception."),
     "C19": ("symbolic execution over a structured-string model of number formatting (which number, how many decimals, which flags) + z3; native parsing of the real strings",
             "Proof: _format_uncertainty(value, error, significance) renders the value with D = max(0, significance - 1 - floor(log10(error))) "
